@@ -69,6 +69,12 @@ def one_side(impl, case, sc, pert):
     try:
         sim = sess.sim
         ckw = {}
+        if dims.get("surplus_status"):
+            for st_ in sc["steps"]:
+                if st_["op"] == "pushdir":
+                    for (nm, _, kind_) in st_["files"]:
+                        if kind_ == "file":
+                            sim.sync_plan.send_raw_status[(st_["path"] + "/" + nm).encode()] = wire.sync_okay() * 2 if dims["surplus_status"] == "twice" else wire.sync_okay() + b"FAIL\x03\x00\x00\x00xyz"
         if pert == "auth":
             nkeys = rng.randint(0, 3)
             accept = rng.choice([None, "pub"] + list(range(nkeys)))
@@ -520,6 +526,10 @@ def run_case(case):
         for st in sc["steps"]:
             if st.get("mtime") == 0:
                 st["mtime"] = 4
+        # the device may answer a file with more FileSync bytes than the host asks for (its status twice, trailing bytes): they belong to that file's stream only
+        sc["dims"]["surplus_status"] = rng.choice([None, "twice", "trailing"])
+        sc["steps"].insert(rng.randrange(len(sc["steps"]) + 1), {"op": "pushdir", "path": "/pdx", "files": [["a", 10, "file"], ["b", rng.choice([100, 5000]), "file"], ["c", 0, "file"]][:rng.choice([2, 3])],
+                                                                  "seed": case["seed"], "mtime": 4, "mode": 0o100644})
         pert = "none"
     if pert == "fit":
         sc = {"dims": {"maxdata": case["maxdata"], "remote": "random", "id_start": 0, "frag": "whole", "empty_rate": 0.0, "noise": []},
